@@ -245,14 +245,16 @@ Section Trees.
      which partial_cmp is a total order and `Equal` means identical *)
   Variable sum_ok : list num -> bool.
   Variable val_ok : num -> bool.
+  (* [cmp_ok xs]: on the values of xs partial_cmp is a total order and `Equal` means identical *)
+  Variable cmp_ok : list num -> bool.
   Definition vsum_ok (D : nat) (xs : list vec) : bool :=
     forallb (fun v => Nat.eqb (length v) D) xs && forallb (fun c => sum_ok (column c xs)) (seq 0 D).
   Definition guard {X} (b : bool) (x : X) : res X := if b then Ok x else Panic 99.
   Definition reds_chk (T : key -> sched) (P : key -> list nat) : reds A :=
     {| r_sum := fun k xs => guard (sum_ok xs) (tree_sum (T k) xs);
        r_vsum := fun k D xs => guard (vsum_ok D xs) (tree_vsum (T k) D xs);
-       r_maxby := fun k xs => guard (forallb val_ok xs) (tree_reduce max_op (T k) xs);
-       r_minby := fun k xs => guard (forallb val_ok xs) (tree_reduce min_op (T k) xs);
+       r_maxby := fun k xs => guard (cmp_ok xs) (tree_reduce max_op (T k) xs);
+       r_minby := fun k xs => guard (cmp_ok xs) (tree_reduce min_op (T k) xs);
        r_bbox := fun k D xs => guard (forallb (fun v => Nat.eqb (length v) D && forallb val_ok v) xs)
                                      (tree_bbox (T k) D xs);
        r_gsum := fun k xs => guard (sum_ok xs) (seq_sum (reorder (P k) xs)) |}.
@@ -603,3 +605,16 @@ Definition val_ok_f64 (x : spec_float) : bool :=
   | S754_infinity _ => true
   | S754_finite _ m e => bounded 53 1024 m e
   end.
+
+(* the same with -0.0 allowed and 0.0 excluded *)
+Definition val_ok_neg_f64 (x : spec_float) : bool :=
+  match x with
+  | S754_nan => false
+  | S754_zero s => s
+  | S754_infinity _ => true
+  | S754_finite _ m e => bounded 53 1024 m e
+  end.
+
+(* no NaN, and not both 0.0 and -0.0 (the only two distinct values that compare Equal) *)
+Definition cmp_ok_f64 (xs : list spec_float) : bool :=
+  forallb val_ok_f64 xs || forallb val_ok_neg_f64 xs.
